@@ -102,6 +102,8 @@ def upsert {α} (m : Assoc α) (k : Bytes) (v : α) : Assoc α :=
 structure File where
   fid : Nat
   recs : List (Nat × Rec)     -- (offset, record) in write order
+  /-- bytes that do not decode follow the last record (a write that was cut short by a crash) -/
+  torn : Bool := false
   deriving Repr, Inhabited
 
 structure State where
@@ -339,6 +341,8 @@ def openDB (opt : Opts) (fs : List File) : State × Outcome Unit :=
   let s : State := { opt := opt, files := fs', activeFid := maxFid, hintFid := maxFid, writeOff := fileEnd act,
                      actualSize := fileEnd act, opened := true }
   if fs.isEmpty then (s, .ok ())
+  -- a record that does not read back (crc error) is fatal in getActiveFileWriteOff / parseDataFiles
+  else if fs'.any (·.torn) then (s, .err)
   else
     let rs := allRecs fs'
     let ids := committedIds rs
